@@ -35,12 +35,25 @@ pub struct ProverCircuitData<F, C, const D: usize> { _p: core::marker::PhantomDa
 pub fn wormhole_private_batch_circuit_config() -> (r: CircuitConfig) { unimplemented!() }
 #[verifier::external_body]
 pub fn wormhole_public_batch_circuit_config() -> (r: CircuitConfig) { unimplemented!() }
+/// the canonical (freshly rebuilt) circuits' verifier data — C17. The three functions below are under contract in unit `artifacts`, where the
+/// same postconditions are PROVED on their real bodies; here they are the callee contracts the constructors are checked against.
+pub uninterp spec fn canon_leaf_vk() -> int;
+pub uninterp spec fn canon_leaf_common() -> CommonCircuitData<F, D>;
+pub uninterp spec fn canon_pb_vk(leaf_vk: int, leaf_common: CommonCircuitData<F, D>, n: int) -> int;
+pub uninterp spec fn canon_pb_common(leaf_vk: int, leaf_common: CommonCircuitData<F, D>, n: int) -> CommonCircuitData<F, D>;
 #[verifier::external_body]
-pub fn load_canonical_leaf_verifier_data(common_bytes: &[u8], verifier_only_bytes: &[u8]) -> (r: Result<VerifierCircuitData<F, C, D>>) { unimplemented!() }
+pub fn load_canonical_leaf_verifier_data(common_bytes: &[u8], verifier_only_bytes: &[u8]) -> (r: Result<VerifierCircuitData<F, C, D>>)
+    ensures r.is_ok() ==> vk_of(&r->Ok_0.verifier_only) == canon_leaf_vk() && r->Ok_0.common == canon_leaf_common(),
+{ unimplemented!() }
 #[verifier::external_body]
-pub fn load_canonical_private_batch_verifier_data(common_bytes: &[u8], verifier_only_bytes: &[u8], leaf: &VerifierCircuitData<F, C, D>, num_leaf_proofs: usize) -> (r: Result<VerifierCircuitData<F, C, D>>) { unimplemented!() }
+pub fn load_canonical_private_batch_verifier_data(common_bytes: &[u8], verifier_only_bytes: &[u8], leaf: &VerifierCircuitData<F, C, D>, num_leaf_proofs: usize) -> (r: Result<VerifierCircuitData<F, C, D>>)
+    ensures r.is_ok() ==> vk_of(&r->Ok_0.verifier_only) == canon_pb_vk(vk_of(&leaf.verifier_only), leaf.common, num_leaf_proofs as int)
+        && r->Ok_0.common == canon_pb_common(vk_of(&leaf.verifier_only), leaf.common, num_leaf_proofs as int),
+{ unimplemented!() }
 #[verifier::external_body]
-pub fn canonical_leaf_verifier_data() -> (r: VerifierCircuitData<F, C, D>) { unimplemented!() }
+pub fn canonical_leaf_verifier_data() -> (r: VerifierCircuitData<F, C, D>)
+    ensures vk_of(&r.verifier_only) == canon_leaf_vk() && r.common == canon_leaf_common(),
+{ unimplemented!() }
 #[verifier::external_body]
 pub fn load_dummy_proof(bytes: Vec<u8>, common_data: &CommonCircuitData<F, D>) -> (r: Result<ProofWithPublicInputs<F, C, D>>) { unimplemented!() }
 impl ProofWithPublicInputs<F, C, D> {
